@@ -24,6 +24,7 @@ class HCfg:
     length: int = 3
     flavours: str = "s"
     deepcopy: bool = True
+    ops: str = "all"  # C15 harness: "exec" restricts the alphabet to executor operations and plain calls
 
 
 class InstCounter:
@@ -238,6 +239,8 @@ def run_c15(cfg: HCfg, c: Ctx) -> Any:
     shape = c.choose(3, "program")
     flavour = cfg.flavours[c.choose(len(cfg.flavours), "flavour")] if len(cfg.flavours) > 1 else cfg.flavours
     OPS = ["call1", "call2", "failcall", "exec_new", "exec_new:n1", "exec_run", "exec_failrun", "compose", "config"]
+    if cfg.ops == "exec":
+        OPS = ["call1", "exec_new", "exec_new:n1", "exec_run", "exec_failrun"]
     hist = [OPS[c.choose(len(OPS), "op")] for _ in range(cfg.length)] + [("call1", "call2")[c.choose(2, "last")]]
     fail_node = labels[c.choose(3, "failnode")] if any("fail" in o for o in hist) else None
     # an executor operation needs an executor
